@@ -538,8 +538,7 @@ func checkC16(p *Prog, res *Result, tier string) {
 		}
 	}
 	// ---- R6: the Range answer is the complete snapshot (C13-R5/R6/R8) ----
-	sub13 := newResult("C13")
-	checkC13(p, sub13, tier)
+	sub13 := p.subResult("C13", tier)
 	for _, o := range sub13.Obls {
 		if o.Rule == "C13-R5" || o.Rule == "C13-R6" || o.Rule == "C13-R8" {
 			res.add("C16-R6", o.Rule+" "+o.Construct, o.Status, o.Pos, o.Detail)
